@@ -202,6 +202,7 @@ def main():
     stats = []
     vlines = []
     exe_of = {}
+    foreign_notes = []
     for bi, (binary, extra) in enumerate(bins):
         exe_of[bi] = os.path.join(BUILD, binary)
     for out in all_outs:
@@ -213,6 +214,8 @@ def main():
                         m = re.match(r"V (\d+) (\S+) (\S+) \| (.*)", line.rstrip("\n"))
                         if m:
                             vlines.append((int(m.group(1)), m.group(2), m.group(3), m.group(4), exe_of[bi]))
+                    elif line.startswith("FOREIGN "):
+                        foreign_notes.append(line.rstrip("\n")[8:])
                     elif line.startswith("STATS ") or line.startswith("PARTIAL "):
                         stats.append(json.loads(line[line.index("{"):]))
         except OSError:
@@ -386,6 +389,8 @@ def main():
     print(f"{prop} {tier}: {judged} runs judged ({agg['discarded']} discarded), {distinct} distinct non-trivial histories, "
           f"{agg['violating_runs']} violating runs in {len(groups)} group(s), {len(known_hits)} known finding(s), "
           f"build {build_s:.0f}s run {run_s:.0f}s")
+    for n in sorted(set(foreign_notes))[:6]:
+        print(f"  note: an oracle of another property fired in this property's runs (not a verdict of this check): index {n[:300]}")
     if exit_code == 0:
         shutil.rmtree(workdir, ignore_errors=True)
     return exit_code
